@@ -24,6 +24,7 @@ import (
 	"encoding/json"
 	"fmt"
 	"io"
+	"math/rand"
 	"net"
 	"sort"
 	"strings"
@@ -273,7 +274,7 @@ type c18Cmd struct {
 	// Ambiguous: additional alternatives for which the documentation is not
 	// decisive; when only these hold, either decision is accepted.
 	Ambiguous [][]string
-	Action    string                                  // fake method performing the action
+	Action    string                             // fake method performing the action
 	RespError func(frame []byte) (string, error) // decodes the first response frame
 }
 
@@ -394,7 +395,7 @@ func c18Sat(m c18Model, creds *proto.Credentials, alts [][]string) bool {
 // c18Exchange sends one framed command on a fresh connection through the mux,
 // half-closes, and returns every byte the server sent until it closed.
 func c18Exchange(addr string, cmd *proto.Command) ([]byte, error) {
-	conn, err := net.DialTimeout("tcp", addr, 10*time.Second)
+	conn, err := c18Dial(addr)
 	if err != nil {
 		return nil, err
 	}
@@ -451,7 +452,7 @@ func c18Start(credFile string) (*c18Node, error) {
 	if err := cs.Load(strings.NewReader(credFile)); err != nil {
 		return nil, fmt.Errorf("credentials load: %w", err)
 	}
-	ln, err := net.Listen("tcp", "127.0.0.1:0")
+	ln, err := c18Listen()
 	if err != nil {
 		return nil, err
 	}
@@ -505,7 +506,8 @@ func TestVerif_C18_InterNode(t *testing.T) {
 		m := c18Build(users)
 		node, err := c18Start(file)
 		if err != nil {
-			rt.Skipf("infrastructure: %v", err)
+			rec.Label("inconclusive:infrastructure")
+			return
 		}
 		defer node.stop()
 		press := c18Presentations(m)
@@ -621,7 +623,7 @@ func TestVerif_C18_InterNode(t *testing.T) {
 // c18ExchangeMany sends several framed commands back to back on ONE
 // connection, half-closes, and returns everything the server sent.
 func c18ExchangeMany(addr string, cmds []*proto.Command) ([]byte, error) {
-	conn, err := net.DialTimeout("tcp", addr, 10*time.Second)
+	conn, err := c18Dial(addr)
 	if err != nil {
 		return nil, err
 	}
@@ -709,7 +711,8 @@ func TestVerif_C18_InterNodeSeq(t *testing.T) {
 		rec.Sample(canon)
 		node, err := c18Start(file)
 		if err != nil {
-			rt.Skipf("infrastructure: %v", err)
+			rec.Label("inconclusive:infrastructure")
+			return
 		}
 		defer node.stop()
 		all, xerr := c18ExchangeMany(node.ln.Addr().String(), wire)
@@ -765,4 +768,53 @@ func TestVerif_C18_InterNodeSeq(t *testing.T) {
 			fail(fmt.Sprintf("%d unexpected bytes after the last response", len(rest)))
 		}
 	})
+}
+
+// ---- infrastructure helpers (not part of any oracle) ----
+
+// c18Dial connects to addr from a random loopback source address 127.x.y.z.
+// Sockets of a client that closes (or half-closes) first stay in TIME_WAIT for
+// 60 s; with 127.0.0.1 as the only source address, thousands of short
+// connections per second from many check processes would leave no free port
+// for bind(127.0.0.1:0), i.e. for every new listener on the machine. Spreading
+// the client side over 127/8 keeps those sockets away from 127.0.0.1. A few
+// retries with back-off absorb transient failures.
+func c18Dial(addr string) (net.Conn, error) {
+	var last error
+	for try := 0; try < 5; try++ {
+		d := net.Dialer{Timeout: 10 * time.Second, LocalAddr: &net.TCPAddr{IP: net.IPv4(127, byte(1+rand.Intn(250)), byte(rand.Intn(256)), byte(1+rand.Intn(250)))}}
+		c, err := d.Dial("tcp", addr)
+		if err == nil {
+			return c, nil
+		}
+		last = err
+		time.Sleep(time.Duration(25*(try+1)) * time.Millisecond)
+	}
+	return nil, last
+}
+
+// c18Listen listens on 127.0.0.1:0, retrying a few times.
+func c18Listen() (net.Listener, error) {
+	var last error
+	for try := 0; try < 5; try++ {
+		ln, err := net.Listen("tcp", "127.0.0.1:0")
+		if err == nil {
+			return ln, nil
+		}
+		last = err
+		time.Sleep(time.Duration(50*(try+1)) * time.Millisecond)
+	}
+	return nil, last
+}
+
+// c18Retry runs f up to five times with a short back-off.
+func c18Retry(f func() error) error {
+	var last error
+	for try := 0; try < 5; try++ {
+		if last = f(); last == nil {
+			return nil
+		}
+		time.Sleep(time.Duration(50*(try+1)) * time.Millisecond)
+	}
+	return last
 }
